@@ -354,6 +354,9 @@ pub mod settings;
 pub mod stats;
 /// Traits that provide ways to be generic over `Bump(Scope)`s.
 pub mod traits;
+#[cfg(all(bump_scope_verif, feature = "std"))]
+#[doc(hidden)]
+pub mod verif_hooks;
 mod without_dealloc;
 
 pub use bump::Bump;
